@@ -1173,8 +1173,15 @@ impl<'a, C: CellType> OptRebuild<'a, C> {
                                 .filter(|x| !constant.contains(x))
                                 .collect();
                             for var in pending {
-                                let has_written = sub_state.written.contains_key(&var);
                                 let pending = sub_state.remove_pending(var).unwrap();
+                                // The pending operation is relative to the state after the
+                                // instructions already emitted in the body. It only describes
+                                // the complete effect of one iteration if neither the variable
+                                // nor any of its operands are written by those instructions.
+                                let has_written = sub_state.written.contains_key(&var)
+                                    || pending
+                                        .variables()
+                                        .any(|v| sub_state.written.contains_key(&v));
                                 let [b, d, a] = self.loop_motion(
                                     var,
                                     pending,
